@@ -279,8 +279,42 @@ def _parents(node, stop):
     return out
 
 
+def _receive_by_evaluation(ctx, fi):
+    """FragmentReceiver.receive decided by partial evaluation (engine/minieval.py): on a three-slot receiver, empty or with the slot
+    already filled, for every index from -3 to 6 and 65535, the slot index-1 holds the new fragment afterwards exactly when
+    1 <= index <= 3 and it was empty, and no other slot changes (a negative slot index would wrap around to the end of the list).
+    None when the function is outside the evaluator's fragment."""
+    from engine.minieval import MiniEval
+    from engine.index import Undecided
+    bad, cases = [], 0
+    try:
+        for pre in ([None, None, None], ["old1", None, "old3"], ["old1", "old2", "old3"]):
+            for index in list(range(-3, 7)) + [65535]:
+                cases += 1
+                state = list(pre)
+                ev = MiniEval(ctx.repo, ctx.folder, fi, self_attrs={"fragments": state, "msgseq": 0, "count": 3})
+                r = ev.call([index, 77, "new"])
+                want = list(pre)
+                if 1 <= index <= 3 and pre[index - 1] is None:
+                    want[index - 1] = "new"
+                got = ev.self_attrs.get("fragments")
+                if r[0] != "return" or got != want:
+                    bad.append({"before": pre, "index": index, "after": got, "expected": want, "outcome": repr(r)[:60]})
+    except Undecided:
+        return None
+    return cases, bad
+
+
 def r4(ctx):
     fi = ctx.fn("connection:FragmentReceiver.receive")
+    ev = _receive_by_evaluation(ctx, fi)
+    if ev is not None:
+        cases, bad = ev
+        why = "FragmentReceiver.receive evaluated (engine/minieval) on %d (state, index) pairs" % cases
+        ctx.check(not [b for b in bad if b["before"][b["index"] - 1:b["index"]] not in ([None], [])] , "C04.R4", fi, "a slot is written only while empty (first write wins)", why, witness=bad[:2])
+        ctx.check(not bad, "C04.R4", fi, "slot index range 1..len", why + ": the 1-based index is range-checked before it selects slot index-1, no other slot changes", witness=bad[:3])
+        ctx.check(not bad, "C04.R4", fi, "slot := the fragment bytes", why + ": stored value is the received fragment", witness=bad[:2])
+        return
     cfg = cfg_of(fi)
     cc = CondCtx(ctx.folder, fi.module, fi.cls)
     idx = fi.params[1]
